@@ -669,6 +669,10 @@ class Interp:
             elif kind == "skip":
                 if st.orelse or not all(isinstance(s, ast.Return) for s in st.body):
                     fail(st, "batch-level `if np.all(...)` with a body that is not a plain return")
+            elif kind == "assume":
+                if st.orelse:
+                    fail(st, "else branch of a non-degeneracy guard")
+                self.block(st.body, env, mod)
             else:
                 fail(st, "symbolic branch condition")
             return
@@ -715,6 +719,13 @@ class Interp:
             return "concrete", (not r if neg_ else r)
         v = self.expr(test, env, mod)
         if is_symbolic(v):
+            # non-degeneracy guard `if <scalar> > 0:` : the model ASSUMES it holds (a mesh / body of extent 0 is
+            # outside the model); the comparison itself is against the literal 0 and is recorded as usual
+            if isinstance(test, ast.Compare) and len(test.ops) == 1 and isinstance(test.ops[0], ast.Gt) \
+                    and isinstance(test.left, ast.Name) and isinstance(test.comparators[0], ast.Constant) \
+                    and test.comparators[0].value == 0 and isinstance(v, N):
+                self.notes.add(f"non-degeneracy guard `if {ast.unparse(test)}:` assumed to hold")
+                return "assume", None
             return "symbolic", None
         return "concrete", bool(v)
 
@@ -1523,8 +1534,10 @@ ENTRIES = [
      {"field": ["B", "H", "J", "M"]}, (0, 2)),
     ("trimesh_inside", F + "field_BH_triangularmesh", "mask_inside_trimesh",
      {"points": ("arr", (1, 3), L), "faces": ("arr", (2, 3, 3), L)}, {}, None),
+    # lines_end_in_trimesh is only called by mask_inside_trimesh (ONLY_CALLED_FROM), which hands it the ray and
+    # the faces of the unit-size copy of the problem: DIMENSIONLESS inputs (owed by the caller, see MODULAR)
     ("trimesh_lines_end", F + "field_BH_triangularmesh", "lines_end_in_trimesh",
-     {"lines": ("arr", (1, 2, 3), L), "faces": ("arr", (2, 3, 3), L)}, {}, None),
+     {"lines": ("arr", (1, 2, 3), D0), "faces": ("arr", (2, 3, 3), D0)}, {}, None),
     # is_facet_inwards and segments_intersect_facets are only reached through get_inwards_mask /
     # get_intersecting_triangles, which hand them a copy of the mesh normalised to unit size (checked by the
     # two prefix entries below and by CALL_ROOTS): their inputs are DIMENSIONLESS
@@ -1542,6 +1555,43 @@ ENTRIES = [
      {"vertices": ("arr", (3, 3), L), "triangles": ("val", np.array([[0, 1, 2]]))}, {}, None,
      {"stop": "kdtree", "watch": {"facets": D0, "centers": D0, "r": D0}}),
 ]
+
+# functions typed with dimensionless inputs may only be referenced from the functions that normalise first
+ONLY_CALLED_FROM = {
+    "lines_end_in_trimesh": {"mask_inside_trimesh"},
+    "is_facet_inwards": {"get_inwards_mask"},
+    "segments_intersect_facets": {"get_intersecting_triangles"},
+}
+
+
+def check_only_called_from(repo):
+    root = os.path.join(repo, "magpylib")
+    for dirpath, _dirs, files in os.walk(root):
+        for fnm in files:
+            if not fnm.endswith(".py"):
+                continue
+            path = os.path.join(dirpath, fnm)
+            tree = ast.parse(open(path).read())
+            owner = {}
+            for fn in ast.walk(tree):
+                if isinstance(fn, (ast.FunctionDef, ast.AsyncFunctionDef, ast.Lambda)):
+                    for node in ast.walk(fn):
+                        owner.setdefault(id(node), getattr(fn, "name", "<lambda>"))
+            for node in ast.walk(tree):
+                nm = node.id if isinstance(node, ast.Name) else node.attr if isinstance(node, ast.Attribute) else None
+                if nm in ONLY_CALLED_FROM:
+                    # ast.walk visits outer functions first: the recorded owner is the outermost function
+                    own = owner.get(id(node))
+                    if own not in ONLY_CALLED_FROM[nm]:
+                        raise Untranslatable(f"{nm} is referenced from {own or 'module level'} in "
+                                             f"{os.path.relpath(path, repo)}: it is typed with dimensionless inputs "
+                                             f"and may only be used by {sorted(ONLY_CALLED_FROM[nm])}")
+            for node in ast.walk(tree):
+                if isinstance(node, (ast.ImportFrom,)):
+                    for al in node.names:
+                        if al.name in ONLY_CALLED_FROM:
+                            raise Untranslatable(f"{al.name} is imported in {os.path.relpath(path, repo)}")
+
 
 # syntactic tie between the prefix entries and the calls in the un-executed rest of those functions: every
 # array argument of the callee is (an index expression of) one of the watched, normalised variables
@@ -1612,7 +1662,7 @@ MODULAR = {
         ({"points": L, "faces": L}, lambda b: (len(b["points"]),), None,
          {"trimesh_facet_inwards": {"points": D0, "faces": D0}}),
     ("field_BH_triangularmesh", "lines_end_in_trimesh"):
-        ({"lines": L, "faces": L}, lambda b: (len(b["lines"]),)),
+        ({"lines": D0, "faces": D0}, lambda b: (len(b["lines"]),)),
     # the triangle field is an entry of its own (degree 0 in length, 1 in excitation for field B and H)
     ("field_BH_triangle", "BHJM_triangle"):
         ({"observers": L, "vertices": L, "polarization": E0}, lambda b: np.shape(b["observers"]), (0, 2)),
@@ -1833,6 +1883,7 @@ def analyse(repo):
         degs = run_entry(interp, entry, envs)
         per_entry.append((entry[0], n0, degs, envs))
     check_call_roots(interp)
+    check_only_called_from(repo)
     static = inventory(interp)
     return {"interp": interp, "per_entry": per_entry, "static": static}
 
